@@ -144,6 +144,7 @@ def run_stream(run, drv, rng, quick):
         has_lock_parent = [parents[j] is not None and kinds[parents[j]] == "own" for j in range(N)]
         events, impl_objs, keep = [], [], []
         memmapped = set()
+        named = set()       # nodes that carry dim names (a names assignment reaches every nested node)
         skipped = None
         label = {"family": topo["family"], "locked_how": topo["how"], "batch": list(topo["batch"]), "kinds": kinds}
         focus = 0 if rng.random() < 0.6 else rng.randrange(N)
@@ -199,15 +200,23 @@ def run_stream(run, drv, rng, quick):
                             continue
                         node.names = [rng.choice(["u", "v", "w", "p", "q"]) + str(d) for d in range(r)]
                         events.append(["api", "names", j])
+                        named.update(_sub(parents, j))
                     elif kind == "batch_size":
                         if topo["family"] == "lazy":
                             continue
                         bs = node.batch_size
+                        has = bool(node._has_names())
+                        kept = any(nm is not None for nm in node.names[:r - 1]) if has else False
+                        if has and not kept:
+                            continue        # names present but all None after the cut: the setter takes the `names = None` path (direct children only) - outside the modelled events
                         if r >= 2 and rng.random() < 0.7:
-                            node.batch_size = bs[:-1]       # a real change and back: two rebindings of the node's metadata
+                            # a real change and back: two rebindings of the node's metadata; on a node that carries dim names the setter
+                            # re-assigns the (cut / padded) names, which walks down the nested nodes like a names assignment
+                            ev = "batch_size_named" if has else "batch_size"
+                            node.batch_size = bs[:-1]
                             node.batch_size = bs
-                            events.append(["api", "batch_size", j])
-                            events.append(["api", "batch_size", j])
+                            events.append(["api", ev, j])
+                            events.append(["api", ev, j])
                         else:
                             node.batch_size = bs            # assigning the current value is a no-op
                             events.append(["api", "batch_size_same", j])
